@@ -13,7 +13,7 @@ use serde::{Deserialize, Serialize};
 pub fn def() -> PropDef {
     PropDef {
         id: "C04",
-        rule: "generated: even shard size 2..330 (all tails, plus multi-block sizes up to 80 KiB) x small/pow2-edge configuration (one case in five: any count class up to thousands of shards, with shards up to ~2 KiB, i.e. many AND long) x codec family x engine x data x received set; half of the cases run on a reused object whose retained working memory was poisoned (padding lanes then hold noise). oracle: every output has exactly the shard size; for all slots (size<=66) or sampled slots, coding the 2-byte shards made of that slot alone (documented byte placement) gives exactly that slot of the big-shard outputs, for encode and decode. non-trivial: size%64 != 0 (tail) and at least one original restored; distinct by full case",
+        rule: "generated: even shard size 2..330 (all tails, plus multi-block sizes up to 80 KiB) x small/pow2-edge configuration (one case in five: any count class up to thousands of shards, with shards up to ~2 KiB, i.e. many AND long) x codec family x engine x data x received set; half of the cases run on a reused object whose retained working memory was poisoned (padding lanes then hold noise); a third of those warm-ups keep counts and block count and differ only in the tail length. oracle: every output has exactly the shard size; for all slots (size<=66) or sampled slots, coding the 2-byte shards made of that slot alone (documented byte placement) gives exactly that slot of the big-shard outputs, for encode and decode. non-trivial: size%64 != 0 (tail) and at least one original restored; distinct by full case",
         assumptions: &["poison only overwrites bytes that survive a resize (real stale bytes)"],
         parts,
     }
@@ -97,7 +97,16 @@ fn check(c: &SlotCase, st: &mut Stats) -> CheckResult {
         let (mut enc, mut dec);
         if c.poison {
             // warm-up with a larger configuration so that the target's whole buffer is "retained"
-            let (wk, wr, wb) = (k + 3, r + 2, b + 64);
+            // one warm-up in three keeps the counts and the number of 64-byte blocks and changes only the
+            // tail length (e.g. 66 -> 70): the working space keeps its exact layout across the reset
+            let (wk, wr, wb) = if (c.data.seed >> 1) % 3 == 0 {
+                let lo = (b - 1) / 64 * 64 + 2;
+                let cand = lo + 2 * ((c.data.seed >> 8) as usize % 32);
+                (k, r, if cand != b { cand } else if b == lo { lo + 62 } else { lo })
+            } else {
+                (k + 3, r + 2, b + 64)
+            };
+            st.classf("warmup_same_layout_other_tail", (wk, wr) == (k, r));
             enc = make_enc(c.kind, c.eng, wk, wr, wb, None).map_err(|e| format!("warm-up encoder: {e:?}"))?;
             dec = make_dec(c.kind, c.eng, wk, wr, wb, None).map_err(|e| format!("warm-up decoder: {e:?}"))?;
             let wdata = DataSpec { mode: 0, seed: c.data.seed ^ 1 }.expand(wk, wb);
